@@ -128,6 +128,33 @@ pub fn run_c11(w: &mut W) {
             wires.pop();
             pkts.pop();
         }
+        // Self-delimiting but malformed inside: an IPFIX message (delimited by its header length)
+        // whose first set claims more bytes than the message has left. Delivered alone the set is
+        // undecodable; in a chain it must not reach into the following packet.
+        if !oversize && rng.chance(1, 6) {
+            let cands: Vec<usize> = (0..wires.len()).filter(|i| wires[*i].len() >= 24 && wires[*i][0] == 0 && wires[*i][1] == 10).collect();
+            if !cands.is_empty() {
+                let i = *rng.pick(&cands);
+                let left = wires[i].len() - 16;
+                let claim = (left + 4 + rng.usize(60)).min(65535) as u16;
+                wires[i][18..20].copy_from_slice(&claim.to_be_bytes());
+                w.rep.count("sequences_with_an_overlong_ipfix_set", 1);
+            }
+        }
+        // only the last packet of a sequence may decode to an error: cut the sequence after the
+        // first packet that does so when delivered one per call
+        {
+            let mut probe = NetflowParser::default();
+            let mut keep = wires.len();
+            for (i, x) in wires.iter().enumerate() {
+                if probe.parse_bytes(x).iter().any(|e| e.is_error()) {
+                    keep = i + 1;
+                    break;
+                }
+            }
+            wires.truncate(keep);
+            pkts.truncate(keep);
+        }
         let n = wires.len();
         // reference: one packet per call
         let mut ref_sut = Sut::new(1);
@@ -1346,8 +1373,13 @@ pub fn run_c07(w: &mut W) {
         };
         // IPFIX: one never-defined orphan in eight uses Set ID 255, the last reserved id (neither a
         // template set nor the id of any template: the set is omitted and defines nothing)
-        let reserved = !v9 && reason == 0 && rng.chance(1, 8);
-        let wid = if reserved { 255 } else { fresh_id(&ex, &mut rng) };
+        // V9: one never-defined orphan in eight is a flowset with a reserved id (2-255; often 5, 7, 9 or
+        // 10, the values a version word has) whose body continues like the *next packet* of the same
+        // exporter (same source id, sequence + 1, then a data flowset for a known template): bytes
+        // that look like a packet boundary inside a flowset are still the flowset's body
+        let reserved_v9 = v9 && reason == 0 && rng.chance(1, 8);
+        let reserved = (!v9 && reason == 0 && rng.chance(1, 8)) || reserved_v9;
+        let wid = if reserved_v9 { *rng.pick(&[9u16, 9, 5, 7, 10, 2, 255]) } else if reserved { 255 } else { fresh_id(&ex, &mut rng) };
         let mut shadow = ex.clone();
         let (tmpl_pkt, data_fs_v9, data_set_ix): (Vec<u8>, Option<V9FlowSet>, Option<IpfixSet>);
         if v9 {
@@ -1501,7 +1533,24 @@ pub fn run_c07(w: &mut W) {
                     fs.push(d.clone());
                 }
             }
-            let pkt = shadow.v9_wrap(&mut rng, &cfg, fs);
+            let mut pkt = shadow.v9_wrap(&mut rng, &cfg, fs);
+            if reserved_v9 {
+                w.rep.count("orphans_with_reserved_flowset_id_and_packet_shaped_body", 1);
+                // body = what follows version+count in the next packet of this exporter
+                let mut body = vec![];
+                body.extend_from_slice(&pkt.sys_up_time.to_be_bytes());
+                body.extend_from_slice(&pkt.unix_secs.to_be_bytes());
+                body.extend_from_slice(&pkt.seq.wrapping_add(1).to_be_bytes());
+                body.extend_from_slice(&pkt.source_id.to_be_bytes());
+                if let Some(k) = mk_known_v9(&ex, &mut rng) {
+                    body.extend(k.wire());
+                }
+                for f in pkt.flowsets.iter_mut() {
+                    if f.id() == wid {
+                        *f = V9FlowSet::Orphan { id: wid, body: body.clone() };
+                    }
+                }
+            }
             data_pkt_alone = shadow.v9_wrap(&mut rng, &cfg, vec![d]).wire();
             let mut buf = lead.clone();
             buf.extend(pkt.wire());
